@@ -105,7 +105,10 @@ def generate(tape, tier="quick"):
             "ctor_mask": tape.chance(1, 4),
             "dmask": tape.weighted([("FLEX", 6), ("partial", 3)]), "mbits": [tape.draw(4) == 0 for _ in range(160)],
             "npub": tape.rng_int(2, 3), "coef": [[tape.choice([0.0, 1.0, 7.0])] + [tape.choice([1.0, -2.0, 0.5, 10.0]) for _ in range(3)]
-                                                 for _ in range(3)]}
+                                                 for _ in range(3)],
+            # another variable on the very same source grid object, regridded by an adapter of its own with the other
+            # source mask, is coupled first (one grid object shared by several outputs is the normal case in a model)
+            "sibling": tape.chance(1, 3)}
 
 
 def locations(sp, G):
@@ -180,6 +183,21 @@ def execute(sc):
         if dmask_flat.all():
             return {"violations": [], "digest": digest_of(sc), "nontrivial": False, "cls": "all-masked"}
         dmask = dmask_flat.reshape(dshape, order=dorder)
+    if sc.get("sibling"):
+        try:
+            alt = np.array([bits[(i + 3) % len(bits)] for i in range(ns)]).reshape(sshape, order=sorder)
+            if alt.all() or use_smask:
+                alt = None                                        # main link masked: the sibling is not
+            so = Output(name="sib", info=Info(time=dt(0), grid=GS, units="m", mask=alt if alt is not None else Mask.FLEX))
+            si = Input(name="sibdst", info=Info(time=dt(0), grid=GD, units="m", mask=Mask.FLEX))
+            so >> (RegridNearest() if sc["method"] == "nearest" else RegridLinear(fill_with_nearest=True)) >> si
+            si.ping()
+            si.exchange_info()
+            fld = np.arange(ns, dtype=float).reshape(sshape, order=sorder)
+            so.push_data(np.ma.array(fld, mask=alt, shrink=False) if alt is not None else fld, dt(0))
+            si.pull_data(dt(0))
+        except Exception:      # noqa: BLE001   (the sibling is not what is judged here)
+            pass
     out = Output(name="src", info=Info(time=dt(0), grid=GS, units="m", mask=smask if use_smask else Mask.FLEX))
     cons_mask = Mask.FLEX if ctor_mask else (dmask if sc["dmask"] == "partial" else Mask.FLEX)
     inp = Input(name="dst", info=Info(time=dt(0), grid=GD, units="m", mask=cons_mask))
